@@ -199,7 +199,7 @@ class Dm14Query:
         for i in range(len(raw_bytes) // self.object_byte_size):
             values.append(
                 int.from_bytes(
-                    raw_bytes[i : self.object_byte_size],
+                    raw_bytes[i * self.object_byte_size : (i + 1) * self.object_byte_size],
                     byteorder="little",
                     signed=self.signed,
                 )
